@@ -25,6 +25,7 @@ def schedOfSexp : Sexp → Option Sched
 def modeOfSexp : Sexp → Option Mode
   | .sym "compiled" => some .compiled
   | .sym "reference" => some .reference
+  | .sym "refbody" => some .refbody
   | _ => none
 
 def rowOfSexp (i : Nat) : Sexp → Option Fact
@@ -115,7 +116,7 @@ def unifySeq (fuel : Nat) (pairs : List (Term × Term)) (watch : List Term) (sch
 
 def sexpOfFrontErr (e : FrontErr) : Sexp := .list [.sym "error", .sym (reprStr e)]
 
-def compileClauses (cs : List SClause) : Sexp :=
+def compileSClauses (cs : List SClause) : Sexp :=
   let prog := compileProgram (groupClauses cs)
   if tooLarge prog then sexpOfFrontErr .tooLarge
   else .list (.sym "ok" :: prog.map sexpOfPStmt)
@@ -133,7 +134,7 @@ def handle : Sexp → Sexp
       | _, _, _, _ => .sym "bad-op"
   | .list (.sym "compile" :: cs) =>
       match cs.mapM sclauseOfSexp with
-      | some cs => compileClauses cs
+      | some cs => compileSClauses cs
       | none => .sym "bad-op"
   | .list [.sym "front", .str text] =>
       match frontend text with
@@ -142,7 +143,7 @@ def handle : Sexp → Sexp
   | .list [.sym "compiletext", .str text] =>
       match frontend text with
       | .ok (cs, na) =>
-          match compileClauses cs with
+          match compileSClauses cs with
           | .list (.sym "ok" :: rest) => .list (.sym "ok" :: .sym (if na then "nonascii" else "ascii") :: rest)
           | e => e
       | .error e => sexpOfFrontErr e
